@@ -490,3 +490,7 @@ def run(ck):
     ck.floor("ABORT:roots", len(roots), 3)
     abort.check(ck, P, roots, "ABORT/back", abort_table.JUSTIFIED, api_fns=None, label="inflateBack")
     ck.assumptions += ["rustc MIR", "rejection table and justified-abort table confirmed by reading", "host target x86_64; K1"]
+
+# session 5 (round 9, D24)
+EXPLANATION = EXPLANATION + " " + (
+    "SIB/same-terms-same-threshold, PAIR/second-level-bits and CUT/fast-loop-epilogue are evaluated over inflateBack's decoder copies as well.")
